@@ -22,4 +22,15 @@ let run (toks : string list) : string =
     if not (ordered 0 s.ConnWrite.sock) then "undecryptable" else
     let by_writer = L.map (fun (t, cs) -> hx (L.concat cs)) s.ConnWrite.coq_done in
     "ok " ^ String.concat "," (L.sort compare by_writer)
+  | "resp" :: ops ->
+    (* resp B | P:<hex> | F | N:<hex> ...   what reaches the connection when response parts and notifications are mixed *)
+    let rops = L.map (fun o ->
+        if o = "B" then Respond.RBegin else if o = "F" then Respond.RFinish
+        else if String.length o > 2 && o.[0] = 'P' then Respond.RPart (unhex (String.sub o 2 (String.length o - 2)))
+        else if String.length o > 2 && o.[0] = 'N' then Respond.RNotify (unhex (String.sub o 2 (String.length o - 2)))
+        else failwith "bad resp op") ops in
+    let s = Respond.rrun true rops in
+    "out=" ^ String.concat "," (L.map (fun it -> match it with
+        | Respond.Part (_, p) -> "P:" ^ hx p | Respond.Note n -> "N:" ^ hx n) s.Respond.rout)
+    ^ " pending=" ^ String.concat "," (L.map hx s.Respond.pending)
   | _ -> "badcase"
